@@ -110,17 +110,20 @@ def _red_sig(cfg, s, exp, obs):
 
 
 def red_replayer(extra, path):
-    cfg = extra["cfg"]
-    real = RedirReal(cfg)
-    try:
-        for i, s in enumerate(path):
-            obs = canon(real.step(s["act"], s["args"]))
-            if obs != s["exp"]:
-                return {"step": i, "act": s["act"], "args": s["args"], "exp": s["exp"], "obs": obs,
-                        "sig": _red_sig(cfg, s, s["exp"], obs)}
-        return None
-    finally:
-        real.close()
+    # every path is replayed with the redirect limit given on the request and, when it follows redirects,
+    # again with the limit coming from the client's defaults (same expected behaviour)
+    for via in ((0, 1) if extra["cfg"]["follow"] else (0,)):
+        cfg = dict(extra["cfg"], via=via)
+        real = RedirReal(cfg)
+        try:
+            for i, s in enumerate(path):
+                obs = canon(real.step(s["act"], s["args"]))
+                if obs != s["exp"]:
+                    sig = _red_sig(cfg, s, s["exp"], obs)
+                    return {"step": i, "act": s["act"], "args": s["args"], "exp": s["exp"], "obs": obs, "via": via, "sig": sig}
+        finally:
+            real.close()
+    return None
 
 
 def red_random_trace(args):
@@ -130,6 +133,7 @@ def red_random_trace(args):
     cfg = {"method": rng.choice(["GET", "GET", "HEAD", "POST", "POST", "PUT", "PATCH", "DELETE", "OPTIONS"]),
            "maxr": rng.choice([0, 1, 2, 3, 5, 5, 8]), "hdr": 100 * na + 10 * nc + rng.choice([0, 0, 1, 2]),
            "follow": rng.random() < 0.9}
+    cfg["via"] = tid % 2
     real = RedirReal(cfg)
     ev = [{"a": "fetch", "args": [], "obs": real.proj()}]
     url_creds = cfg["hdr"] % 10 == 1
